@@ -4,11 +4,11 @@ package main
 // POS.COL, POS.ERRSITE, TREE.ATTACHED, TREE.VISITALL, STATE.RELINK, GLOBAL.ESCAPE.
 
 import (
-	"os"
 	"fmt"
 	"go/ast"
 	"go/token"
 	"go/types"
+	"os"
 	"sort"
 	"strings"
 
@@ -608,6 +608,29 @@ func ruleTreeAttached(c *Ctx) []Obligation {
 				obs = append(obs, ok(R, con, c.InstrPos(in), "stored through a pointer parameter, and every caller hands in the address of an entry-valued link field"))
 				return
 			}
+			// stored through a local pointer that holds the address of one link field or another
+			// (`slot := &e.RPC.Input; if out { slot = &e.RPC.Output }; *slot = &Entry{Parent: e, …}`)
+			for _, r := range refsOf(al) {
+				st, isS := r.(*ssa.Store)
+				if !isS || st.Val != ssa.Value(al) {
+					continue
+				}
+				if _, isPhi := st.Addr.(*ssa.Phi); !isPhi {
+					continue
+				}
+				fas := phiFieldAddrs(st.Addr)
+				all := len(fas) > 0
+				for _, fa := range fas {
+					owner, f, _ := fieldOf(fa)
+					if f == nil || owner == nil || !ptrTo(f.Type(), m.entry) {
+						all = false
+					}
+				}
+				if all {
+					obs = append(obs, ok(R, con, c.InstrPos(in), "stored through a local pointer that holds the address of an entry-valued link field on every path"))
+					return
+				}
+			}
 			obs = append(obs, bad(R, con, c.InstrPos(in), "the new entry names a parent but is never stored into that parent's Dir/RPC: it is detached — what is merged into it (augments) is lost and no absolute path finds it again"))
 		})
 	}
@@ -913,8 +936,8 @@ func init() {
 
 // bareKeyJustified: table → why a key without the revision is right there.
 var bareKeyJustified = map[string]string{
-	"yang.(*Modules).add: m":            "the module table itself (ms.Modules or ms.SubModules): every module is filed under name@revision and the bare name is an alias for the newest revision (REV.ORDER decides the re-pointing)",
-	"yang.FindGrouping: seen":           "visited set of a search over the include graph: a second visit of a same-named submodule would search the same groupings again; skipping it loses nothing",
+	"yang.(*Modules).add: m":  "the module table itself (ms.Modules or ms.SubModules): every module is filed under name@revision and the bare name is an alias for the newest revision (REV.ORDER decides the re-pointing)",
+	"yang.FindGrouping: seen": "visited set of a search over the include graph: a second visit of a same-named submodule would search the same groupings again; skipping it loses nothing",
 }
 
 func ruleRevBareKey(c *Ctx) []Obligation {
@@ -1293,7 +1316,6 @@ func (c *Ctx) linksResetPerPass(fn *ssa.Function, f *types.Var) bool {
 
 // sliceOf: the slice value behind an element address (x[i] → x).
 func sliceOf(v ssa.Value) ssa.Value { return v }
-
 
 // ptrTo: t is *N.
 func ptrTo(t types.Type, n *types.Named) bool {
